@@ -186,8 +186,9 @@ func (matrix *SparseReal64Matrix) SLICE(rfrom, rto, cfrom, cto int) *SparseReal6
   return &m
 }
 func (matrix *SparseReal64Matrix) AsSparseReal64Vector() *SparseReal64Vector {
-  if matrix.cols < matrix.colMax - matrix.colOffset ||
-    (matrix.rows < matrix.rowMax - matrix.rowOffset) {
+  // a view (fewer rows or columns than the storage block) does not own the
+  // underlying vector: collect its elements
+  if matrix.rowMax > matrix.rows || matrix.colMax > matrix.cols {
     n, m := matrix.Dims()
     v := nilSparseReal64Vector(n*m)
     for it := matrix.ConstIterator(); it.Ok(); it.Next() {
